@@ -30,7 +30,7 @@ def run(tier):
         conds.append(Cond("h_parse_str.py", "sound", to, twin="reach", path_timeout=to / 2, env=env))
     conds.append(Cond("h_parse_str.py", "sound", 240 if tier == "quick" else 1500, twin="reach",
                       env={"H_SPEC": "uni", "H_LEN": "2" if tier == "quick" else "3", "H_START": "<alt>"}))
-    for spec, n in (("prefix", 3), ("amb", 2), ("open", 3), ("uni", 2 if tier == "quick" else 3)):
+    for spec, n in (("prefix", 3), ("amb", 2), ("open", 3), ("uni", 2)):  # thorough: len 3 (len 4 over the 4 UTF-8 classes did not finish in 2400 s)
         conds.append(Cond("h_parse_api.py", "api_sound", 600 if tier == "quick" else 2400, twin="reach_api" if spec == "prefix" else None,
                           env={"H_SPEC": spec, "H_LEN": str(n if tier == "quick" else n + 1)}))
     from checks.parsefam import RX_SPECS
